@@ -105,6 +105,28 @@ impl<'a> PairFn for Corrupt<'a> {
                 }
             }
         }
+        // ---- whole columns shifted by a constant: transitions of the form x' = x + c and running sums keep holding,
+        // so only the assertions on that column can reject (a single corrupted cell always breaks a transition too)
+        for col in 0..st.spec.width() {
+            for d in 0..2u8 {
+                let mut c2 = cols.clone();
+                for step in 0..st.spec.n {
+                    c2[col][step] = kit::refmath::addm(c2[col][step], delta(d, p, 0), p);
+                }
+                let verdict = main_valid::<B>(&st.spec, &c2, &vals);
+                n_cases += 1;
+                let (po, _) = prove_with::<B, H, Coin<H>>(st, &c2, &pubs, None);
+                judge::<B, H>(out, &pubs, verdict, po, || ctxj("main (whole column shifted)", col, 0, d));
+            }
+        }
+        for col in 0..st.spec.sum_cols() {
+            for d in 0..3u8 {
+                n_cases += 1;
+                let (po, verdict) = prove_with::<B, H, Coin<H>>(st, &cols, &pubs, Some(AuxCorruption { col, step: usize::MAX, delta: d }));
+                let verdict = verdict.unwrap_or(Ok(()));
+                judge::<B, H>(out, &pubs, verdict, po, || ctxj("aux (whole column shifted)", col, 0, d));
+            }
+        }
         // ---- statement perturbations of the accepted honest proof
         for (ai, v) in pubs.values.iter().enumerate() {
             for k in 0..v.len().min(4) {
